@@ -100,8 +100,9 @@ class PolarizedRays(RealRays):
         mag = np.linalg.norm(s, axis=1)
 
         # handle case when mag = 0 (i.e., k0 parallel to k1)
-        if np.any(mag == 0):
-            s[mag == 0] = np.cross(k0[mag == 0], np.array([1.0, 0.0, 0.0]))
+        parallel = mag < 1e-8
+        if np.any(parallel):
+            s[parallel] = np.cross(k0[parallel], np.array([1.0, 0.0, 0.0]))
             mag = np.linalg.norm(s, axis=1)
 
         s /= mag[:, np.newaxis]
